@@ -842,7 +842,17 @@ def _crash():
         for tag, keys in (("ab", [8, 9]), ("xa", [3, 8])):
             if dq and tag == "xa":
                 continue    # measured: runs out of memory (40 GB) after 5 min of symbolic execution
-            t = QUICK if (tag == "ab" and not dq) else THOROUGH
+            # quick: the same with all priorities one concrete value -- the bookkeeping around the
+            # feed's callbacks does not depend on them and the final rebuild then costs nothing
+            # (the rebuild's own comparisons are crash points of the iter_mut-drop instances)
+            if tag == "ab" and not dq:      # (min-max heap: out of memory even so)
+                inst(f"crash_{kind}_extend_n8_m2_{tag}_far_rebuild_flat",
+                     f"{{ gen::set_flat_priorities(); crash::crash_extend::<{ty}, 8, 2, {seq_of(keys)}>(Tables::Identity, bulk::H_FAR) }}", kind, 10,
+                     {"C10": QUICK}, "CRASH", meta=dict(op="extend (rebuild strategy)", kind=kind, n=8, m=2, keys=keys, pre="cs",
+                                                         tables="identity", priorities="all equal (concrete)",
+                                                         callbacks="feeding iterator, Ord, Eq, Hash"),
+                     covers_required=False, cost=60, mem=4)
+            t = THOROUGH
             inst(f"crash_{kind}_extend_n8_m2_{tag}_far_rebuild",
                  f"crash::crash_extend::<{ty}, 8, 2, {seq_of(keys)}>(Tables::Identity, bulk::H_FAR)", kind, 10,
                  {"C10": t}, "CRASH", meta=dict(op="extend (rebuild strategy)", kind=kind, n=8, m=2, keys=keys, pre="cs",
